@@ -69,6 +69,10 @@ package dag
 //@   ensures [clocks-monotone] forall n string :: { repository.clockSeen[n] } repository.clockSeen[n] >= old(repository.clockSeen[n])
 //@   defines [head]       err == nil ==> entity.entityHead(result) == repository.refs[ref]
 //@   check [head-is-ref]  err == nil ==> rootHash == repository.refs[ref]
+// C03/C01: the packs are ordered by edit time, ties broken by the pack id - a total order on the packs that
+// depends on nothing but the packs themselves (not on the DAG shape, the merge commits or the reading order):
+// two replicas holding the same packs list them in the same order.
+//@   check [packs-ordered] err == nil ==> (forall k int :: { oppSlice[k] } forall l int :: { oppSlice[l] } 0 <= k && k < l && l < len(oppSlice) ==> !((oppSlice[l].EditTime != oppSlice[k].EditTime) ? oppSlice[l].EditTime < oppSlice[k].EditTime : oppSlice[l].Id() < oppSlice[k].Id()))
 //@   check [clock-edge] err == nil ==> (forall k int :: { BFSOrder[k] } 0 <= k && k < len(BFSOrder) ==> (forall j int :: { BFSOrder[k].Parents[j] } 0 <= j && j < len(BFSOrder[k].Parents) ==> (BFSOrder[k].Parents[j] in oppMap) && oppMap[BFSOrder[k].Parents[j]].EditTime < oppMap[BFSOrder[k].Hash].EditTime))
 //@   check [clock-jump] err == nil ==> (forall k int :: { BFSOrder[k] } 0 <= k && k < len(BFSOrder) && len(BFSOrder[k].Parents) <= 1 ==> (forall j int :: { BFSOrder[k].Parents[j] } 0 <= j && j < len(BFSOrder[k].Parents) ==> oppMap[BFSOrder[k].Hash].EditTime - oppMap[BFSOrder[k].Parents[j]].EditTime <= 1000000))
 //@   loop 3
@@ -98,7 +102,7 @@ package dag
 
 // merge (C02): the five scenarios, decided on the ghost ref store and the ancestry relation.
 //@ func merge
-//@   props C02 C07 C06
+//@   props C02 C07 C06 C01
 //@   pure wrapper
 //@   requires repo != nil && def.OperationUnmarshaler != nil
 //@   requires [wrapper-non-nil] forall e *Entity :: { wrapper(e) } e != nil ==> wrapper(e) != nil
@@ -214,3 +218,12 @@ package dag
 //@     invariant len(e.staging) == len(old(e.staging)) || repository.clockSeen[e.Namespace + "-edit"] >= e.editTime
 //@   loop 2
 //@     invariant repository.refs == refs0 && repository.mutSeq >= old(repository.mutSeq)
+
+// The comparator of read's sort: edit time first, pack id second.
+//@ func (*operationPack).Id
+//@   trusted
+//@   purefn
+//@ func read$1
+//@   props C03 C01
+//@   modifies nothing
+//@   ensures result == ((oppSlice[i].EditTime != oppSlice[j].EditTime) ? oppSlice[i].EditTime < oppSlice[j].EditTime : oppSlice[i].Id() < oppSlice[j].Id())
